@@ -87,7 +87,7 @@ def gen_case(rng, tier, idx):
             lines.append(ls)
     no_obf = rng.sample(OBF_NAMES, rng.choice([0, 0, 0, 1, 2])) if rng.random() < 0.5 else []
     return {"cfg": cfg, "lines": lines, "entry": entry, "no_obfuscate": no_obf, "no_redact": rng.random() < 0.15,
-            "blank_lines": rng.random() < 0.2, "width": width}
+            "blank_lines": rng.random() < 0.2, "width": width, "graph_ds": rng.random() < 0.5}
 
 
 def nontrivial(spec):
@@ -134,14 +134,20 @@ def clean_via(spec, cleaner, lines, ctx):
             no_obfuscate = list(no_obf)
             no_redact = no_red
         hc = HostContext(root=base)
+        ds_obj = DS()
+        if spec.get("graph_ds") and not no_obf and not no_red:
+            # the provider belongs to a real datasource of a real spec set: the implementation of a spec without any
+            # exemption, which ANOTHER spec - one that is exempted from everything - is built on
+            ds_obj = graph_ds()
+            ctx.count("providers_of_a_real_spec_that_an_exempted_spec_is_built_on")
         if entry == "provider":
-            prov = DatasourceProvider(list(lines), relname if width else "rel/path.txt", ds=DS(), ctx=hc, cleaner=cleaner)
+            prov = DatasourceProvider(list(lines), relname if width else "rel/path.txt", ds=ds_obj, ctx=hc, cleaner=cleaner)
         else:
             os.makedirs(os.path.join(base, os.path.dirname(relname)))
             with open(os.path.join(base, relname), "w") as f:
                 f.write("".join(l + "\n" for l in lines))
             prov = TextFileProvider(relname, root=base, ctx=hc, cleaner=cleaner)
-            prov.ds = DS()
+            prov.ds = ds_obj
         dst = os.path.join(base, "out", "x.txt")
         try:
             prov.write(dst)
@@ -157,6 +163,37 @@ def clean_via(spec, cleaner, lines, ctx):
             return f.read().split("\n")
     finally:
         shutil.rmtree(base, ignore_errors=True)
+
+
+_GRAPH = []
+
+
+def graph_ds():
+    if not _GRAPH:
+        import sys
+        import types
+        from insights.core.context import HostContext
+        from insights.core.plugins import datasource
+        from insights.core.spec_factory import RegistryPoint, SpecSet
+        modname = "vpmon_c08.specs"
+        sys.modules[modname] = types.ModuleType(modname)
+        S = type("S08", (SpecSet,), {"__module__": modname, "app_conf": RegistryPoint(),
+                                     "app_id": RegistryPoint(no_redact=True, no_obfuscate=["hostname", "ip", "ipv6", "keyword", "mac", "password"])})
+
+        def app_conf(broker):
+            return None
+
+        def app_id(broker):
+            return None
+        for f in (app_conf, app_id):
+            f.__module__ = modname
+            f.__qualname__ = f.__name__
+        d1 = datasource(HostContext)(app_conf)
+        d2 = datasource(d1, HostContext)(app_id)
+        I = type("I08", (S,), {"__module__": modname, "app_conf": d1, "app_id": d2})
+        assert list(I.app_conf.no_obfuscate) == [] and not I.app_conf.no_redact
+        _GRAPH.append(I.app_conf)
+    return _GRAPH[0]
 
 
 def run_case(spec, ctx):
